@@ -22,10 +22,10 @@ def replay(w, obs, rng, coin, h0, variant):
     d = layout.materialise(w.sub('dd'), blocks, placement, rng, coin=coin, h0=h0, decoys=decoys, extra_file=obs['extra'])
     if variant == 1 and rng.random() < 0.35:
         # blk files kept on other storage and linked into the directory (absolute symbolic links)
-        cold = d.path + '-cold'
+        cold = d.path + '-cold-storage'
         os.makedirs(cold)
         for f in sorted(os.listdir(d.path)):
-            if f.startswith('blk') and f.endswith('.dat') and f[3:-4].isdigit() and rng.random() < 0.7:
+            if f.startswith('blk') and f.endswith('.dat') and f[3:-4].isdigit() and rng.random() < 0.7 and not os.path.islink(os.path.join(d.path, f)):
                 os.rename(os.path.join(d.path, f), os.path.join(cold, f))
                 os.symlink(os.path.join(cold, f), os.path.join(d.path, f))
     r = layout.run_csv(w, d, coin, obs['start'], obs['end'], h0=h0)
